@@ -27,7 +27,7 @@ from ..families import namer as fam
 
 NAMER_CLAUSES = ["Injective", "OrderIndependentUniqueness", "Stable", "LegalSyntax", "NotReserved"]
 NETLIST_CLAUSES = ["DeclUnique", "TableInjective", "DeclLegalSyntax", "DeclNotReserved", "EveryObjectDeclared",
-                   "UsedIsDeclared", "Reproducible"]
+                   "UsedIsDeclared", "Reproducible", "OffsetReproducible"]
 M_CLAUSES = ["Injective", "Stable", "LegalSyntax", "NotReserved"]
 L2_CLAUSES = ["L2Agrees", "L2AgreesFixed"]      # informational: which L2 design the code follows
 
@@ -81,6 +81,9 @@ def _netlist_sigs(clause, wit):
     if clause == "DeclNotReserved":
         return [{"layer": "netlist", "clause": clause, "kind": "unreserved_keyword", "name": n}
                 for n in sorted(wit.get("reserved", []))]
+    if clause == "OffsetReproducible":
+        return [{"layer": "netlist", "clause": clause, "kind": k} for k in sorted(wit.get("offkinds", []))] or \
+               [{"layer": "netlist", "clause": clause, "kind": "?"}]
     return [{"layer": "netlist", "clause": clause, "kind": {"DeclLegalSyntax": "illegal_syntax",
                                                             "EveryObjectDeclared": "undeclared",
                                                             "UsedIsDeclared": "used_not_declared",
@@ -427,6 +430,9 @@ VARIANTS = [
     {"tag": "shim_h0b", "shim": 1, "hashseed": 0, "grp": 1},
     {"tag": "noshim_h0", "shim": 0, "hashseed": 0, "grp": 0},
     {"tag": "noshim_h1", "shim": 0, "hashseed": 1, "grp": 0},
+    # audit extension: same as shim_h0, but the interpreter creates unrelated Signals before every design (all DUIDs of
+    # the design shifted by 1, 2, 3, ... for the 1st, 2nd, ... design); judged by Netlist!OffsetReproducible
+    {"tag": "shim_h0_off", "shim": 1, "hashseed": 0, "grp": 1, "off": 1},
 ]
 
 
@@ -440,8 +446,8 @@ def _design_records(sources, labels, scratch):
         runs = []
         for v in VARIANTS:
             o = out[v["tag"]][k]
-            run = {"grp": v["grp"], "tag": v["tag"], "ok": bool(o["ok"]), "decls": [], "used": [], "table": [], "lines": [],
-                   "ndate": 3, "err": o["err"]}
+            run = {"grp": v["grp"], "off": int(v.get("off", 0)), "tag": v["tag"], "ok": bool(o["ok"]), "decls": [], "used": [],
+                   "table": [], "lines": [], "ndate": 3, "err": o["err"], "multiattr": 0}
             if o["ok"]:
                 try:
                     run["decls"] = fam.declared_identifiers(o["text"])
@@ -450,13 +456,14 @@ def _design_records(sources, labels, scratch):
                     raise MachineryError("design %s (%s): %s" % (labels[k], v["tag"], ex))
                 run["table"] = o["table"]
                 run["lines"], run["ndate"] = fam.strip_dates(o["text"])
+                run["multiattr"] = fam.multi_attribute_lines(o["text"])
             runs.append(run)
         recs.append({"label": labels[k], "runs": runs})
     return recs
 
 
 def judge_designs(recs, chunk=250):
-    slim = [{"runs": [{k: r[k] for k in ("grp", "ok", "decls", "used", "table", "lines", "ndate")} for r in d["runs"]]} for d in recs]
+    slim = [{"runs": [{k: r[k] for k in ("grp", "off", "ok", "decls", "used", "table", "lines", "ndate")} for r in d["runs"]]} for d in recs]
     parts = [(o, slim[o:o + chunk]) for o in range(0, len(slim), chunk)]
 
     def one(p):
@@ -535,7 +542,10 @@ def e2e_mode(report, coll, tier, seed, scratch):
                     "DeclNotReserved": "keywords declared as identifiers: %s" % sorted(wit.get("reserved", [])),
                     "EveryObjectDeclared": "named but never declared: %s" % sorted(wit.get("undeclared", [])),
                     "UsedIsDeclared": "used in statements but never declared: %s" % sorted(wit.get("undeclareduse", [])),
-                    "Reproducible": "texts differ between interpreter runs %s" % sorted(wit.get("unrepro", []))}[f["clause"]]
+                    "Reproducible": "texts differ between interpreter runs %s" % sorted(wit.get("unrepro", [])),
+                    "OffsetReproducible": "texts differ between interpreter runs %s that differ only in how many unrelated "
+                                          "Signals were created before the design (DUID offset)" % sorted(wit.get("unreprooff", []))
+                    }[f["clause"]]
             replay = {"kind": "design", "label": d["label"], "input": inputs[f["tid"]], "source": sources[f["tid"]],
                       "clause": f["clause"], "witness": {k: sorted(v, key=repr) if isinstance(v, (set, frozenset)) else v
                                                          for k, v in wit.items()}}
@@ -552,9 +562,37 @@ def e2e_mode(report, coll, tier, seed, scratch):
     for k in ("port", "net", "memory", "instance"):
         if not kinds.get(k):
             raise MachineryError("vacuity: no %s declaration was judged" % k)
+    # witnesses of the audit extensions
+    xw = {"designs_with_attribute_sets": sum(1 for i in inputs if i.get("attrs")),
+          "designs_with_attr_translate": sum(1 for i in inputs if i.get("xlate")),
+          "emitted_lines_with_two_or_more_attributes": sum(x["multiattr"] for d in recs for x in d["runs"]),
+          "designs_judged_under_duid_offset": sum(1 for d in recs if any(x["ok"] and x["off"] for x in d["runs"])
+                                                  and any(x["ok"] and not x["off"] and x["grp"] == 1 for x in d["runs"])),
+          "designs_under_duid_offset_with_equal_bases": sum(
+              1 for d in recs if any(x["ok"] and x["off"] and len({r[1] for r in x["table"] if r[1]}) < len([r for r in x["table"] if r[1]])
+                                     for x in d["runs"]))}
+    report.add(e2e_extension_witnesses=xw)
+    for k, v in xw.items():
+        if v == 0:
+            raise MachineryError("vacuity: witness %s is zero" % k)
 
 
 # ------------------------------------------------------------------------------------------ entry points
+def _merge_notes_findings(report):
+    """findings of this family recorded in notes/C02_findings.json but not (yet) merged into known_findings.json by the
+    main agent are matched, too (entries already present there, by id, keep the status they have there)"""
+    path = os.path.join(fam.ROOT, "notes", "C02_findings.json")
+    try:
+        with open(path) as f:
+            extra = json.load(f)
+    except (OSError, ValueError):
+        return
+    have = {f.get("id") for f in report.findings}
+    for e in extra:
+        if e.get("property") == report.prop and e.get("id") not in have:
+            report.findings.append(e)
+
+
 def run(prop, report, tier, seed):
     scratch = _scratch()
     pool = fam.make_pool()          # forked before any thread exists
@@ -567,6 +605,7 @@ def run(prop, report, tier, seed):
         report.assume("a request the implementation answers by raising is not judged (nothing was generated); "
                       "more than half of the runs raising is a machinery error")
         report.assume("Reserved = IEEE 1800-2017 Annex B (248 keywords), transcribed in specs/namer/VerilogLex.tla")
+        _merge_notes_findings(report)
         coll = _Collector(report)
         design = rt_mode(report, coll, tier, seed, implpath, scratch, pool)
         m_mode(report, coll, tier, implpath, design)
